@@ -254,7 +254,7 @@ class PurityScenario(Scenario):
                    '(fit_tilt(inplace=True), Wavefront.insert, out=, scratch=, Spectrum.to/resample/crop/trim/pad/append, attribute '
                    'assignment) are issued only on a caller\'s private objects and may change those objects and the caller arrays they alias',
                    'a pure call that fails the same way every time is consistent (outcomes include the exception class)',
-                   'cosmic_rays and smear(angle=None) are unseeded consumers of the global RNG by design and are excluded here (see C18)',
+                   'cosmic_rays and smear(angle=None) are unseeded consumers of the global RNG by design: cosmic_rays is judged under C18, smear is always given its angle here; either of them, when handed a seed= keyword, is held to the seeded-function clause',
                    'bitwise result equality is demanded between repeats and between solo and interleaved executions in one process '
                    '(single-threaded BLAS); the determinism self-test re-validates this']
 
